@@ -6,11 +6,15 @@ import (
 	"fmt"
 	"math/big"
 	"math/rand"
+	"os"
 	"sort"
 	"strings"
 	"sync"
 
 	ethcmn "github.com/ethereum/go-ethereum/common"
+	ethcrypto "github.com/ethereum/go-ethereum/crypto"
+	tmed "github.com/tendermint/tendermint/crypto/ed25519"
+	tmsecp "github.com/tendermint/tendermint/crypto/secp256k1"
 	ethtypes "github.com/ethereum/go-ethereum/core/types"
 
 	"github.com/Oneledger/protocol/action"
@@ -20,7 +24,9 @@ import (
 
 	"olverif/internal/gen"
 	"olverif/internal/hist"
+	"olverif/internal/txb"
 	"olverif/internal/verdict"
+	"olverif/internal/world"
 )
 
 // authentic decides, independently of the repository's ValidateBasic and
@@ -39,19 +45,59 @@ func authentic(w *warm, base hist.TxSpec, mutant []byte) bool {
 	if len(st.Signatures) != len(base.Signers) {
 		return false
 	}
+	orig := &action.SignedTx{}
+	if err := json.Unmarshal(base.Bytes, orig); err != nil || len(orig.Signatures) != len(base.Signers) {
+		return false
+	}
 	for i, req := range base.Signers {
-		h, err := st.Signatures[i].Signer.GetHandler()
-		if err != nil {
+		// the address's own key is the one the original was signed with: same algorithm, same bytes
+		sg := st.Signatures[i]
+		if sg.Signer.KeyType != orig.Signatures[i].Signer.KeyType || !bytes.Equal(sg.Signer.Data, orig.Signatures[i].Signer.Data) {
 			return false
 		}
-		if h.Address().String() != req {
-			return false
-		}
-		if !h.VerifyBytes(rb, st.Signatures[i].Signed) {
+		addr, ok := libVerify(sg.Signer.KeyType, sg.Signer.Data, rb, sg.Signed)
+		if !ok || addr != req {
 			return false
 		}
 	}
 	return true
+}
+
+// libVerify verifies a signature with the crypto libraries directly (not through the repository's key
+// handlers) and returns the address the key stands for.
+func libVerify(alg keys.Algorithm, pub, msg, sig []byte) (string, bool) {
+	switch alg {
+	case keys.ED25519:
+		if len(pub) != 32 {
+			return "", false
+		}
+		var k tmed.PubKeyEd25519
+		copy(k[:], pub)
+		if len(sig) != 64 {
+			// (the pre-hash variant for hardware wallets is never produced by the generator)
+			return "", false
+		}
+		return keys.Address(k.Address()).String(), k.VerifyBytes(msg, sig)
+	case keys.SECP256K1:
+		if len(pub) != 33 {
+			return "", false
+		}
+		var k tmsecp.PubKeySecp256k1
+		copy(k[:], pub)
+		return keys.Address(k.Address()).String(), k.VerifyBytes(msg, sig)
+	case keys.ETHSECP:
+		pk, err := ethcrypto.DecompressPubkey(pub)
+		if err != nil {
+			return "", false
+		}
+		s := sig
+		if len(s) == 65 {
+			s = s[:64]
+		}
+		return keys.Address(ethcrypto.PubkeyToAddress(*pk).Bytes()).String(), ethcrypto.VerifySignature(pub, msg, s)
+	}
+	// no account is keyed with any other algorithm
+	return "", false
 }
 
 func olvmAuthentic(w *warm, st *action.SignedTx) bool {
@@ -207,6 +253,42 @@ func mutants(w *warm, base hist.TxSpec, rng *rand.Rand) []mutant {
 		}
 		return true
 	})
+	// one required signer's (valid) signature in every slot: the other required signer never signed
+	add("first-signer-in-both-slots", func(st *action.SignedTx) bool {
+		if len(st.Signatures) < 2 {
+			return false
+		}
+		st.Signatures[1] = st.Signatures[0]
+		return true
+	})
+	add("second-signer-in-both-slots", func(st *action.SignedTx) bool {
+		if len(st.Signatures) < 2 {
+			return false
+		}
+		st.Signatures[0] = st.Signatures[1]
+		return true
+	})
+	// the same key bytes declared under each other algorithm, with a junk signature and with the original one
+	for _, alg := range []keys.Algorithm{keys.ED25519, keys.SECP256K1, keys.BTCECSECP, keys.ETHSECP} {
+		alg := alg
+		for _, junk := range []bool{false, true} {
+			junk := junk
+			name := "same-key-bytes-as-" + alg.String()
+			if junk {
+				name += "-junk-signature"
+			}
+			add(name, func(st *action.SignedTx) bool {
+				if len(st.Signatures) == 0 || base.Kind == "OLVM" || st.Signatures[0].Signer.KeyType == alg {
+					return false
+				}
+				st.Signatures[0].Signer.KeyType = alg
+				if junk {
+					st.Signatures[0].Signed = detJunk(len(st.Signatures[0].Signed))
+				}
+				return true
+			})
+		}
+	}
 	add("key-algorithm-btcec", func(st *action.SignedTx) bool {
 		// btcec public key of the attacker with an arbitrary signature
 		if len(st.Signatures) == 0 || base.Kind == "OLVM" {
@@ -307,6 +389,14 @@ func checkC04(tier string) int {
 			continue
 		}
 		bases := wm.freshBases(perKind)
+		// one plain transfer per key algorithm that can sign native transactions (ed25519, secp256k1;
+		// Ethereum-style keys only verify 32-byte digests and are exercised through OLVM), so that
+		// every key-related mutation meets every kind of account key
+		for _, u := range []*world.Account{wm.w.Users[0], wm.w.Users[3%len(wm.w.Users)]} {
+			m := &txb.Memo{Tag: fmt.Sprintf("c04-keyed-%d-%s", wm.h, u.Name)}
+			tx := txb.Tx(txb.Send(u.Addr, wm.w.Users[1].Addr, "OLT", "321"), txb.DefaultFee(), m.Next(), u)
+			bases = append(bases, hist.TxSpec{Kind: "SEND", Bytes: tx, Note: "transfer from a " + u.Priv.Keytype.String() + " account", Signers: []string{u.Addr.String()}})
+		}
 		rng := rand.New(rand.NewSource(wm.seed * 31))
 		var muts [][]mutant
 		for _, b := range bases {
@@ -338,7 +428,7 @@ func checkC04(tier string) int {
 	var kmu sync.Mutex
 	parallel(len(jobs), 14, func(i int) {
 		j := jobs[i]
-		id := fmt.Sprintf("%d/%s/%s", j.wm.h, j.base.Kind, j.m.name)
+		id := fmt.Sprintf("%d/%s/%s/%s", j.wm.h, j.base.Kind, j.m.name, cut(j.base.Note, 40))
 		if authentic(j.wm, j.base, j.m.bytes) {
 			r.Count("mutants_still_authentic_skipped", 1)
 			r.Case(id, false)
@@ -359,6 +449,9 @@ func checkC04(tier string) int {
 		if o.Died || o.Panicked {
 			r.Diag(fmt.Sprintf("%s: node died/panicked at %s (decided by C18)", id, o.DiedAt))
 			return
+		}
+		if os.Getenv("DEBUG_C04") != "" && strings.Contains(j.m.name, os.Getenv("DEBUG_C04")) {
+			fmt.Printf("DEBUG %s check=%d %q deliver=%d %q\n", id, o.CheckCode, cut(o.CheckLog, 160), o.Deliver.Code, cut(o.Deliver.Log, 160))
 		}
 		wit := map[string]interface{}{"warm_seed": j.wm.seed, "warm_height": j.wm.h, "kind": j.base.Kind, "mutation": j.m.name, "base": string(j.base.Bytes), "mutant": string(j.m.bytes)}
 		if o.CheckCode == 0 {
@@ -396,3 +489,11 @@ func checkC04(tier string) int {
 var _ = strings.ToLower
 
 func balanceAmount(b *big.Int) *balance.Amount { return balance.NewAmountFromBigInt(b) }
+
+func detJunk(n int) []byte {
+	out := make([]byte, n)
+	for i := range out {
+		out[i] = byte(37*i + 11)
+	}
+	return out
+}
